@@ -48,7 +48,7 @@ SEEDS = [
     "int64 BIG = -9223372036854775808\nuint64 MAX = 0xFFFF_FFFF_FFFF_FFFF\n@print 'x' + \"y\"\n@sealed\n",
     "uint8[<4] a\nuint8[1 + 1] b\n@print Dep.1.0._extent_\n@print uint8._bit_length_\n@sealed\n",
 ]
-DEP = {"rns/Dep.1.0.dsdl": "uint8 K = 7\nuint8 v\n@sealed\n"}
+DEP = {"rns/Dep.1.0.dsdl": "uint8 K = 7\nuint8 v\n@sealed\n", "rns/Svc.1.0.dsdl": "uint8 K = 1\nuint8 a\n@sealed\n---\nuint8 b\n@sealed\n"}
 
 SEED_TOKEN = re.compile(r"[A-Za-z_@][A-Za-z0-9_]*|[0-9][0-9A-Fa-fxX_.]*|\*\*|\|\||&&|==|!=|<=|>=|---|\n|[ \t]+|.", re.S)
 
@@ -109,6 +109,17 @@ def catalogue():
         out.append("@print " + "1" * n + "\n@sealed\n")
         out.append("@print 0x" + "f" * n + "\n@sealed\n")
         out.append("@print 1." + "5" * n + "e" + "1" * min(n, 3) + "\n@sealed\n")
+    # very long numerals (CPython refuses int <-> str conversions beyond 4300 digits) in every numeric position
+    for n in (4300, 4301, 5000, 20000):
+        big = "1" * n
+        out += ["@print %s\n@sealed\n" % big, "@print 0x%s\n@sealed\n" % ("f" * n), "@print %s.5\n@sealed\n" % big, "@print 1.%s\n@sealed\n" % big, "@print 1e%s\n@sealed\n" % ("0" * n + "1"),
+                "uint%s a\n@sealed\n" % big, "void%s\n@sealed\n" % big, "uint8[%s] a\n@sealed\n" % big, "uint8 X = %s\n@sealed\n" % big, "float64 X = %s\n@sealed\n" % big,
+                "@print %s / 0\n@sealed\n" % big, "@print %s %% 0\n@sealed\n" % big, "@print 10 ** %d / 0\n@sealed\n" % n, "@assert %s == 1\n@sealed\n" % big, "@extent %s\n" % big,
+                "Dep.%s.0 d\n@sealed\n" % big, "Dep.1.%s d\n@sealed\n" % big, "@print {%s}\n@sealed\n" % big, "@print {%s, 1}.max\n@sealed\n" % big, "@print -%s\n@sealed\n" % big, "@print %s | 1\n@sealed\n" % big]
+    # a service type wherever a serializable type is expected
+    for use in ("Svc.1.0 s", "Svc.1.0[2] s", "Svc.1.0[<=2] s", "@print Svc.1.0._extent_", "@print Svc.1.0._bit_length_", "@print Svc.1.0", "@assert Svc.1.0.K == 1", "uint8 X = Svc.1.0", "Svc.1.0 X = 1", "@print Svc.1.0 == Svc.1.0", "@print {Svc.1.0}"):
+        out.append(use + "\n@sealed\n")
+        out.append("@union\nuint8 a\n" + use + "\n@sealed\n")
     out += ["", "\n", "\r\n", "\r", " ", "\t\n", "@sealed\r", "uint8 a\r@sealed\n", "﻿uint8 a\n@sealed\n", "uint8 a\x00\n@sealed\n", "uint8 а\n@sealed\n", "uint8 a @sealed\n", "uint8 a\x0c\n@sealed\n", "uint8 a\x0b@sealed\n", "uint8 a\x1c\n@sealed\n", "uint8 a\x85@sealed\n"]
     return out
 
@@ -136,6 +147,7 @@ def plan(tier):
     shards += [{"family": "tokens", "n": n, "part": p, "parts": parts} for p in range(parts)]
     shards += [{"family": "mutations", "part": p, "parts": 32} for p in range(32)]
     shards += [{"family": "catalogue", "part": p, "parts": 32} for p in range(32)]
+    shards += [{"family": "in-dependency", "part": p, "parts": 32} for p in range(32)]
     shards += [{"family": "names", "part": p, "parts": 8} for p in range(8)]
     if tier != "quick":
         shards += [{"family": "mutations2", "part": p, "parts": 128} for p in range(128)]
@@ -190,6 +202,22 @@ def cases(shard, tier):
         for i, s in enumerate(catalogue()):
             if i % shard["parts"] == shard["part"]:
                 yield {"kind": "text", "text": s, "family": "catalogue"}
+    elif fam == "in-dependency":
+        # the same texts offered as a DEPENDENCY (first reached through a referring definition): the path must still name
+        # the offending file, also for faults that only surface when the dependency is finalized
+        i = 0
+        step = 3 if tier == "quick" else 1
+        for seed in SEEDS:
+            for j, m in enumerate(mutations(seed)):
+                if j % step == 0:
+                    if i % shard["parts"] == shard["part"]:
+                        yield {"kind": "text", "text": m, "family": "mutation", "where": "dependency"}
+                    i += 1
+        for j, s in enumerate(catalogue()):
+            if j % step == 0 and len(s) < 2000:
+                if i % shard["parts"] == shard["part"]:
+                    yield {"kind": "text", "text": s, "family": "catalogue", "where": "dependency"}
+                i += 1
     elif fam == "names":
         i = 0
         for n in FILENAMES:
@@ -235,7 +263,21 @@ def verdict(o: api.Obs, R, case, offending: str | None):
 
 
 def check_case(case, R: engine.Acc):
-    if case["kind"] == "text":
+    if case["kind"] == "text" and case.get("where") == "dependency":
+        files = {"lk/" + k.split("/", 1)[1]: v for k, v in DEP.items()}
+        files["lk/Bad.1.0.dsdl"] = case["text"].encode("utf-8")
+        files["rns/A.1.0.dsdl"] = "uint8 x\nlk.Bad.1.0 bad\nuint8 y\n@sealed\n"
+        o = api.read_namespace_tree(files, "rns", ["lk"], timeout=30)
+        R.case(["dep", case["text"]], nontrivial=True, sample=False)
+        if o.error is not None and o.error.get("ide") and o.error.get("path") == "rns/A.1.0.dsdl":
+            # the text may be a valid definition that merely cannot be used as a field of A (a service, a deprecated type):
+            # then A is the offending file. Decide by reading the dependency on its own.
+            alone = api.read_namespace_tree({k: v for k, v in files.items() if k.startswith("lk/")}, "lk", timeout=30)
+            if alone.error is None:
+                R.outcome("invalid-use-of-valid-dependency")
+                return
+        verdict(o, R, case, "lk/Bad.1.0.dsdl")
+    elif case["kind"] == "text":
         files = dict(DEP)
         files["rns/T.1.0.dsdl"] = case["text"].encode("utf-8")
         o = api.read_namespace_tree(files, "rns", timeout=30)
